@@ -2867,3 +2867,13 @@ package goatlang
 //@   reveal Int Int32
 //@   ensures#yield result2 ==> n == old(n) + 1 && old(n) < len(r) && result0 == Int(offs[old(n)]) && result1 == Int32(r[old(n)])
 //@   ensures#done !result2 ==> old(n) == len(r) && n == old(n)
+
+// ---------------------------------------------------------------------------------------------
+// C16 / C08: a package-level name that is neither local, nor a function-local type, nor a builtin
+// resolves to the global slot interned under the *export-prefixed* key: the same key under which
+// the declaration cases (function, :=, var, type) intern it, whether or not it has been seen yet.
+// ---------------------------------------------------------------------------------------------
+//@ func (*compiler).compile case "(name)"
+//@   property C16 C08
+//@   requires wfC(c) && tok != nil
+//@   ensures#forward old(tok.Text != "$" && !(len(c.scope) > 0 && haskey(c.Globals.keyToIndex, c.FuncName+"."+tok.Text)) && !haskey(c.Locals.keyToIndex, tok.Text) && !haskey(c.Globals.keyToIndex, "builtin."+tok.Text)) ==> len(res) == 1 && res[0].Code == codeGlobalGet && haskey(c.Globals.keyToIndex, c.expPrefix(tok.Text)) && int(res[0].A) == c.Globals.keyToIndex[c.expPrefix(tok.Text)]
